@@ -222,6 +222,9 @@ func roundTripPromised(s Session, r *sessRun) (bool, *Val, string) {
 		if src != nil && !everyArrayObjectHas(src, rt.Keys) || tgt != nil && !everyArrayObjectHas(tgt, rt.Keys) {
 			return false, nil, ""
 		}
+		if !uniqueKeyed(src, rt.Keys) || !uniqueKeyed(tgt, rt.Keys) {
+			return false, nil, "" // two members with one identity: not the documented use of -setkeys
+		}
 	}
 	return true, tgt, tgtText
 }
